@@ -167,6 +167,12 @@ CATALOGUE = [
       post=("size{u} = 10", "cnt{u} = 0")),
     K("missing-right-operand", "parse", "critical", ".word 1 + ⟦]⟧", "invalid-expression",
       note="an infix operator followed by blank space and something that is not an operand: the offending character is designated"),
+    # values that are too NEGATIVE for their field (a different report than "too large")
+    K("byte-too-negative", "compile", "error", ".byte 1, -⟦400⟧", "value-out-of-bounds",
+      note="signed literal: first digit designated"),
+    K("immediate-too-negative", "compile", "error", "mov #-⟦200000⟧, r0", "value-out-of-bounds",
+      note="signed literal: first digit designated"),
+    K("lazy-word-too-negative", "link", "error", ".word 5, ⟦tn{u}⟧", "value-out-of-bounds", post=("tn{u} = -200000",)),
     # non-critical errors that the parser issues through its 'report=' path
     K("escape-x-without-digits", "parse", "error", ".ascii /ab⟦\\x⟧ZZcd/", "invalid-escape"),
     K("caret-r-without-characters", "parse", "error", ".word ⟦^R⟧", "invalid-string"),
